@@ -61,6 +61,7 @@ type Stats struct {
 	MaxPathSteps   int64          `json:"max_path_instructions"`
 	Truncated      bool           `json:"truncated"`
 	WitnessReached bool           `json:"witness_reached"`
+	ConcTruncated  int            `json:"concretizations_truncated"`
 }
 
 type Explorer struct {
@@ -92,6 +93,9 @@ type Explorer struct {
 	witness      bool // reachability-witness mode: final assert(false)
 	oblSites     map[string]int
 	stubHits     map[string]int
+	witnesses    [][]inputRec
+	lastProgress time.Time
+	concLimit    int
 	shardK       int
 	shardN       int
 	shardDone    bool
@@ -242,19 +246,35 @@ func (ex *Explorer) concretize(fr *frame, t *Term, lo, hi int64) int64 {
 	var vals []uint64
 	unk := false
 	const maxVals = 300
-	if hi-lo <= 64 {
-		for v := lo; v <= hi; v++ {
+	limit := ex.concLimit // 0 = unlimited
+	full := func() bool { return limit > 0 && len(vals) >= limit }
+	if hi-lo <= 64 || limit > 0 {
+		tries := 0
+		v := lo
+		for ; v <= hi && !full(); v++ {
+			if limit > 0 && hi-lo > 64 && tries >= 3*limit+8 {
+				break
+			}
+			tries++
 			ok, u := ex.feasible(mkEq(t, mkConst(t.w, uint64(v))))
 			if ok {
 				vals = append(vals, uint64(v))
 				unk = unk || u
 			}
 		}
-	} else {
+		if full() && v <= hi {
+			// are there further feasible values? (only to report the truncation honestly)
+			rest := mkBAnd(mkCmp(OpSle, mkConst(t.w, uint64(v)), t), mkCmp(OpSle, t, mkConst(t.w, uint64(hi))))
+			if ok, _ := ex.feasible(rest); ok {
+				ex.stats.ConcTruncated++
+			}
+		}
+	}
+	if len(vals) == 0 && !(hi-lo <= 64) {
 		// model-guided enumeration
 		ex.solver.push()
 		ex.solver.assert(mkBAnd(mkCmp(OpSle, mkConst(t.w, uint64(lo)), t), mkCmp(OpSle, t, mkConst(t.w, uint64(hi)))))
-		for len(vals) < maxVals {
+		for len(vals) < maxVals && !full() {
 			r := ex.solver.check()
 			if r == "unsat" {
 				break
@@ -282,6 +302,11 @@ func (ex *Explorer) concretize(fr *frame, t *Term, lo, hi int64) int64 {
 			v := m[probe.name]
 			vals = append(vals, v)
 			ex.solver.assert(mkBNot(mkEq(t, mkConst(t.w, v))))
+		}
+		if full() {
+			if r := ex.solver.check(); r != "unsat" {
+				ex.stats.ConcTruncated++
+			}
 		}
 		ex.solver.pop()
 		if len(vals) >= maxVals {
@@ -401,6 +426,11 @@ func (ex *Explorer) explore(cfg runConfig) {
 			break
 		}
 		ex.runOnePath(cfg.entry)
+		if os.Getenv("GOSX_PROGRESS") != "" && time.Since(ex.lastProgress) > 10*time.Second {
+			ex.lastProgress = time.Now()
+			fmt.Fprintf(os.Stderr, "gosx[%d/%d]: paths=%d completed=%d abandoned=%d events=%d depth=%d queries=%d solver=%.0fs\n", ex.shardK, ex.shardN,
+				ex.stats.Paths, ex.stats.Completed, ex.stats.Abandoned, len(ex.events), len(ex.stack), ex.solver.Queries, ex.solver.Time.Seconds())
+		}
 		// backtrack
 		for len(ex.stack) > 0 && len(ex.stack[len(ex.stack)-1].alts) == 0 {
 			ex.stack = ex.stack[:len(ex.stack)-1]
@@ -509,9 +539,10 @@ func (ex *Explorer) runOnePath(entry *ssa.Function) {
 			ex.stats.AbandonReasons["solver unknown/timeout on this path"]++
 		} else {
 			ex.stats.Completed++
-			if len(ex.samples) < 3 {
+			if len(ex.witnesses) < 3 || (ex.stats.Completed%97 == 0 && len(ex.witnesses) < 6) {
 				if ins, ok := ex.model(nil); ok {
 					ex.samples = append(ex.samples, "completed path: "+fmtInputs(ins))
+					ex.witnesses = append(ex.witnesses, ins)
 				}
 			}
 		}
